@@ -237,6 +237,8 @@ std::string CostProgram::describe() const
         o << "window(tg)|p-c|^2 ";
     if (conditionalWrites)
         o << "(conditional writes) ";
+    if (bar_r2 > 0)
+        o << "hard-barrier(+inf) ";
     if (seg_w)
         o << "*segweight";
     o << "]";
@@ -601,6 +603,14 @@ double CostProgram::runCost(double t, double tg, int seg, const double *p, const
         }
     if (usesTime && (timeActive || !conditionalWrites))
         gt = sw * Gt;
+    if (bar_r2 > 0)
+    {
+        double d2 = 0;
+        for (int q = 0; q < d; ++q)
+            d2 += (p[q] - bar_c[q]) * (p[q] - bar_c[q]);
+        if (d2 < bar_r2)
+            return INFINITY;
+    }
     if (pert >= PERT_GP && pert <= PERT_GS)
         out[pert - PERT_GP][pert_coord % d] += pert_delta;
     if (pert == PERT_GT)
